@@ -298,7 +298,9 @@ def queryOf (target : Bytes) : List (Bytes × List Bytes) :=
   let pairs := (Wire.splitOnByte 38 (rawQuery target)).filter (!·.isEmpty) |>.map fun kv =>
     (pctDecode true (kv.takeWhile (· != 61)), pctDecode true ((kv.dropWhile (· != 61)).drop 1))
   let keys := (pairs.map (·.1)).eraseDups
-  keys.map fun k => (k, (pairs.filter (·.1 == k)).map (·.2))
+  -- HTTPPayload.MarshalJSON sorts the query string by name and then by value (the deterministic order the property's
+  -- anchors name): the values of a repeated name are reported in byte order, not in the order of the target
+  keys.map fun k => (k, ((pairs.filter (·.1 == k)).map (·.2)).mergeSort fun a b => Sx.hexOfBytes a ≤ Sx.hexOfBytes b)
 
 def expectedEntry (q r : Msg) : Sx :=
   let params := (queryOf q.target).mergeSort fun a b => Sx.hexOfBytes a.1 ≤ Sx.hexOfBytes b.1
